@@ -271,6 +271,13 @@ class C16(Prop):
         col.mon("format")
         want = fm.fmt(PROBE, **{k: eff[k] for k in FORMAT})
         inplace_bundle = any(re.match(r"-i[a-z]", f) for f in flags)
+        # the effective size limit also governs a file named on the command line (fixed record 8eeee56): a probe larger
+        # than the limit is left alone (in place) / yields no output (stdout)
+        limit = eff.get("files_max_size", 0)
+        skipped = bool(limit) and len(PROBE.encode()) > limit
+        if skipped:
+            want = PROBE if (auto or inplace_bundle) else ""
+            col.count("probe_over_effective_size_limit")
         if auto or inplace_bundle:
             shutil.copy(os.path.join(work, "probe.md"), os.path.join(work, "probe-auto.md"))
             rc, out, err = self.main((["--auto"] if auto else []) + flags + ["probe-auto.md"], work)
@@ -283,7 +290,7 @@ class C16(Prop):
             rc, out, err = self.main(flags + ["probe.md"], work)
             got = out
         if rc != 0 or got != want:
-            wrong = [k for k in FORMAT if fm.fmt(PROBE, **dict({x: eff[x] for x in FORMAT}, **{k: DEFAULTS[k] if eff[k] != DEFAULTS[k] else ALT[k]})) == got]
+            wrong = ["files_max_size"] if skipped else [k for k in FORMAT if fm.fmt(PROBE, **dict({x: eff[x] for x in FORMAT}, **{k: DEFAULTS[k] if eff[k] != DEFAULTS[k] else ALT[k]})) == got]
             col.violation("format", f"C16/format/effective-settings-wrong/{'+'.join(wrong) or 'unknown'}", case,
                           {"argv": (["--auto"] if auto else []) + flags, "expected_effective": {k: eff[k] for k in FORMAT}, "rc": rc,
                            "stderr": err[-200:], "settings_that_explain_output_if_flipped": wrong})
